@@ -259,6 +259,11 @@ func bigCases(cell pktgen.Cell) []bigCase {
 		for _, n := range sizes {
 			out = append(out, bigCase{"graph-star", n}, bigCase{"graph-child-chain", n}, bigCase{"graph-redirect-chain", n}, bigCase{"graph-redirect-chain-desc", n})
 		}
+		// a 150000-node redirect chain (just fits a frame) in every tier: a decoder that is quadratic in the chain
+		// length needs ~5x the CPU of the 65536-node case (which an idle machine finishes just inside the 10 s stall
+		// budget, so the reverse of fix 9752e59 was missed there) - about 45 s against a budget of 30 s; the linear
+		// decoder of HEAD needs 4-5 s
+		out = append(out, bigCase{"graph-redirect-chain", 150000}, bigCase{"graph-redirect-chain-desc", 150000})
 	}
 	return out
 }
@@ -386,6 +391,8 @@ func (c *child) runBig(bc bigCase, payload []byte) {
 		// 5-10 s of CPU (GC workers included) although decoding is linear: allow 6x the stall budget for
 		// this one case. A quadratic decoder needs minutes here and is still reported.
 		fmt.Fprintln(c.out, "SLOW")
+	} else if bc.n >= 100000 {
+		fmt.Fprintln(c.out, "SLOW3") // 3x the stall budget
 	}
 	c.out.Flush()
 	c.res.Evals++
@@ -1032,6 +1039,8 @@ loop:
 			switch {
 			case ln == "SLOW":
 				stall = 6 * baseStall // announced by the child for a frame-filling command graph
+			case ln == "SLOW3":
+				stall = 3 * baseStall // a command graph of >= 100000 nodes
 			case strings.HasPrefix(ln, "CELL "):
 				cr.lastCell, _ = strconv.Atoi(ln[5:])
 				cr.lastCase = 0
